@@ -17,7 +17,7 @@ import pelgen
 from props import c04
 
 RULE = ("both --clean paths (parseAndWriteOutput for --json, main() for --file) are run on the real code under EVERY fault schedule: "
-        "any subset of {open, write, close} of the output file respectively {write, flush} of stdout raising OSError (ENOSPC/EIO/EPIPE), "
+        "any subset of {open, write, close} of the output file respectively {write, flush} of stdout (document and -x hex display) raising OSError (ENOSPC/EIO/EPIPE), "
         "x decode outcome {decodes, filtered out, truncated, bad header}; the observed sequence of operations and the survival "
         "of the input file are compared with the statement and with the Coq model; plus real-OS runs with stdout on /dev/full and on "
         "a closed pipe; non-trivial = distinct (path, decode outcome, schedule)")
@@ -131,7 +131,7 @@ def run_json(data, sel, sched, tmp):
     return events, alive, complete
 
 
-def run_file(data, sel, sched, tmp):
+def run_file(data, sel, sched, tmp, hexm=False):
     src = os.path.join(tmp, "in2", "one.pel")
     os.makedirs(os.path.dirname(src), exist_ok=True)
     with open(src, "wb") as f:
@@ -145,7 +145,7 @@ def run_file(data, sel, sched, tmp):
     out = FaultyStdout(sched, events)
     from pel.peltool import peltool
     old_argv, old_out, old_err = sys.argv, sys.stdout, sys.stderr
-    sys.argv = ["peltool.py"] + sel + ["-f", src, "--clean"]
+    sys.argv = ["peltool.py"] + sel + ["-f", src, "--clean"] + (["-x"] if hexm else [])
     sys.stdout, sys.stderr = out, io.StringIO()
     os.remove = fake_remove
     try:
@@ -164,12 +164,12 @@ def run_file(data, sel, sched, tmp):
     return events, alive, bool(printed.strip()) and not sched.get("print") and not sched.get("flush")
 
 
-def os_level(run, data, tmp, target):
+def os_level(run, data, tmp, target, hexm=False):
     """real process, stdout on /dev/full or a closed pipe"""
     src = os.path.join(tmp, "os.pel")
     with open(src, "wb") as f:
         f.write(data)
-    cmd = [common.PY, os.path.join(common.ROOT, cli_runner.PELTOOL), "-E", "-f", src, "--clean"]
+    cmd = [common.PY, os.path.join(common.ROOT, cli_runner.PELTOOL), "-E", "-f", src, "--clean"] + (["-x"] if hexm else [])
     if target == "devfull":
         with open("/dev/full", "w") as out:
             p = subprocess.run(cmd, stdout=out, stderr=subprocess.PIPE, env=common.IMPL_ENV, timeout=60)
@@ -179,7 +179,7 @@ def os_level(run, data, tmp, target):
         p = subprocess.run(cmd, stdout=w, stderr=subprocess.PIPE, env=common.IMPL_ENV, timeout=60)
         os.close(w)
     run.evaluations += 1
-    run.count("os:" + target)
+    run.count("os:" + target + (":hex" if hexm else ""))
     alive = os.path.exists(src)
     if not alive:
         run.violation("os:" + target, "peltool -f x --clean with stdout on %s deleted the PEL although its output was lost (rc %d)" % (target, p.returncode),
@@ -216,16 +216,17 @@ def run(run, model, proof):
                         run.disagreements_checked += 1
                         run.violation("model:json-clean", "operations %r / removed=%s differ from the model %r / %s" % (trace, not alive, m["trace"], m["removed"]),
                                       dict(rp, kind="M", correspondence="Model.Clean.json_prog vs parseAndWriteOutput", model=m), no_input=True)
-                # ---- --file --clean: all subsets of {print, flush}
-                for bits in range(4):
+                # ---- --file --clean, as a document and as a hex display (-x): all subsets of {print, flush}
+                for bits in range(8):
+                    hexm = bool(bits & 4)
                     sched = dict(print=bits & 1, flush=bits & 2)
-                    events, alive, complete = run_file(data, sel, sched, tmp)
+                    events, alive, complete = run_file(data, sel, sched, tmp, hexm=hexm)
                     run.evaluations += 1
                     run.nontriv(("file", dec_name, bits))
-                    run.count("file:" + dec_name)
+                    run.count(("file-hex:" if hexm else "file:") + dec_name)
                     fb = (8 if sched["print"] else 0) | (16 if sched["flush"] else 0)
                     m = dict(model.call("clean_trace", b"\1", bytes([dcode]), b"\1", bytes([fb]))[1])
-                    rp = dict(fn="file-clean", decode=dec_name, schedule=sched, events=events, input_survives=alive, output_complete=complete, input_hex=data.hex())
+                    rp = dict(fn="file-clean", decode=dec_name, schedule=sched, hex=hexm, events=events, input_survives=alive, output_complete=complete, input_hex=data.hex())
                     if not alive and not (dec_name == "ok" and complete):
                         run.violation("file-clean:removed-without-output:%s:%s" % (dec_name, "+".join(k for k, v in sched.items() if v) or "nofault"),
                                       "--file --clean removed the input although %s" % ("the document was not completely printed" if dec_name == "ok" else "it was not decoded"),
@@ -236,6 +237,7 @@ def run(run, model, proof):
                                       dict(rp, kind="M", correspondence="Model.Clean.file_prog vs main() --file", model=m), no_input=True)
             for target in ("devfull", "closedpipe"):
                 os_level(run, ins["ok"][0], tmp, target)
+                os_level(run, ins["ok"][0], tmp, target, hexm=True)
         run.exhaustive = True
         run.sample(dict(path="json", decode="ok", schedule=dict(close=True), model=dict(model.call("clean_trace", b"\0", b"\0", b"\1", bytes([4]))[1])))
         run.sample(dict(path="file", decode="reject", schedule={}, model=dict(model.call("clean_trace", b"\1", b"\2", b"\1", b"\0")[1])))
